@@ -6,7 +6,7 @@ From L3 Require Import Ber BerFixed Utf8 Frame.
 Import ListNotations.
 Open Scope N_scope.
 
-Record dfix := { fix2 : bool; fix4 : bool; pf : pfix }.
+Record dfix := { fix2 : bool; fix4 : bool; pf : pfix; fix30 : bool }.   (* fix30: a message id outside 0 .. 2^31-1 is a decoding error, not folded into the range *)
 Inductive cres (A : Type) := COk (a : A) | CBad | CPanic.       (* CBad = decoding_error *)
 Arguments COk {A}. Arguments CBad {A}. Arguments CPanic {A}.
 Definition oops {A} (b : bool) : cres A := if b then CBad else CPanic.
@@ -56,7 +56,7 @@ Definition envelope' (fx : dfix) (tags : list tree) : cres (N * tree * list ctrl
       | COk ctrls =>
         match before with
         | [] => oops (fix2 fx)
-        | P Universal id v :: _ => if id =? 2 then COk (as_i32 (parse_uint v), protoop, ctrls) else oops (fix2 fx)
+        | P Universal id v :: _ => if id =? 2 then (if fix30 fx && negb (id_ok v) then CBad else COk (as_i32 (parse_uint v), protoop, ctrls)) else oops (fix2 fx)
         | _ => oops (fix2 fx) end
       end in
     if is_ctx 0 then
@@ -87,7 +87,7 @@ Definition decode_inner' (fx : dfix) (buf : list byte) : dres :=
     end
   end.
 
-Definition as_is_d := {| fix2 := false; fix4 := false; pf := as_is_p |}.
+Definition as_is_d := {| fix2 := false; fix4 := false; pf := as_is_p; fix30 := false |}.
 (* the probes again, on the switchable definitions with every switch off *)
 Lemma as_is_panics : decode_inner' as_is_d (b [48; 0]) = DPanic /\ decode_inner' as_is_d (b [48; 3; 2; 1; 1]) = DPanic /\
   decode_inner' as_is_d (b [48; 5; 4; 1; 1; 97; 0]) = DPanic /\
@@ -129,23 +129,42 @@ Lemma parse_controls'_agrees f4 ts cs : parse_controls ts = Ok cs -> parse_contr
 Proof. revert cs. induction ts as [|t ts IH]; intros cs; cbn; [intros H; injection H as <-; reflexivity|].
   destruct (parse_control t) as [c|] eqn:E; [|discriminate]. rewrite (parse_control'_agrees f4 t c E).
   destruct (parse_controls ts) as [cs'|]; [|discriminate]. intros H; injection H as <-. now rewrite (IH cs' eq_refl). Qed.
-Lemma envelope'_agrees fx tags v : envelope tags = Ok (Some v) -> envelope' fx tags = COk v.
-Proof. unfold envelope, envelope', oops.
+Lemma envelope'_agrees fx tags v : fix30 fx = false -> envelope tags = Ok (Some v) -> envelope' fx tags = COk v.
+Proof. intros F30. unfold envelope, envelope', oops. rewrite F30. cbn [andb].
   repeat match goal with
   | |- context [parse_controls ?cs] => let E := fresh "E" in destruct (parse_controls cs) eqn:E; [rewrite (parse_controls'_agrees (fix4 fx) _ _ E)|]
   | |- context [match ?x with _ => _ end] => destruct x end; intros H; try discriminate H; injection H as <-; reflexivity. Qed.
 
-Definition repaired_d (m : nat) : dfix := {| fix2 := true; fix4 := true; pf := lim true m |}.
+Definition repaired_d (m : nat) : dfix := {| fix2 := true; fix4 := true; pf := lim true m; fix30 := true |}.
 
+(* the repairs of F2-F6 alone (message ids still folded mod 2^32, as the decoder as found does) *)
+Definition repaired_d_but30 (m : nat) : dfix := {| fix2 := true; fix4 := true; pf := lim true m; fix30 := false |}.
 Theorem decode_agrees m buf mid op cs rest : decode_inner buf = DFrame mid op cs rest ->
   (forall t r, parse_tag (S (length buf)) buf = POk (t, r) -> (tdepth t <= S m)%nat) ->
-  decode_inner' (repaired_d m) buf = DFrame mid op cs rest.
+  decode_inner' (repaired_d_but30 m) buf = DFrame mid op cs rest.
 Proof. unfold decode_inner, decode_inner'. destruct buf as [|x xs]; [discriminate|]. intros H Hd.
   destruct (parse_tag (S (length (x :: xs))) (x :: xs)) as [[t r]| | |] eqn:E; try discriminate.
-  cbn [pf repaired_d]. rewrite (c11_repairs_reject_nothing_valid m _ _ t r E (Hd t r eq_refl)).
+  cbn [pf repaired_d_but30]. rewrite (c11_repairs_reject_nothing_valid m _ _ t r E (Hd t r eq_refl)).
   destruct t as [|c id tags]; [discriminate|]. destruct (id =? 16); [|discriminate].
   destruct (envelope tags) as [[[[mid' op'] cs']|]|] eqn:Ee; try discriminate.
-  now rewrite (envelope'_agrees _ _ _ Ee). Qed.
+  now rewrite (envelope'_agrees (repaired_d_but30 m) _ _ eq_refl Ee). Qed.
+(* F30: the decoder never delivers a frame whose message id is outside 0 .. 2^31-1 (as found, 2^32+1 was delivered as 1) *)
+Theorem c01_decoded_id_in_range fx buf mid op cs rest : fix30 fx = true -> decode_inner' fx buf = DFrame mid op cs rest -> mid <= 2147483647.
+Proof.
+  intros F. unfold decode_inner'. destruct buf as [|x xs]; [discriminate|].
+  destruct (parse_tag' (pf fx) 0 (S (length (x :: xs))) (x :: xs)) as [[t r]| | |]; try discriminate.
+  destruct t as [|c id tags]; [discriminate|]. destruct (id =? 16); [|discriminate].
+  destruct (envelope' fx tags) as [[[mid' op'] cs']| |] eqn:Ee; try discriminate. intros H. injection H as <- _ _ _.
+  revert Ee. unfold envelope', oops. rewrite F. cbn [andb].
+  repeat match goal with
+  | |- context [id_ok ?v] => let E := fresh "E" in destruct (id_ok v) eqn:E; cbn [negb]
+  | |- context [match ?x with _ => _ end] => destruct x end; intros H; try discriminate H; injection H as <- _ _.
+  all: match goal with E : id_ok ?v = true |- _ => unfold id_ok in E; apply andb_prop in E as [_ E]; apply N.leb_le in E; unfold as_i32; rewrite N.mod_small; [exact E|] end.
+  all: match goal with E : parse_uint _ <= _ |- _ => revert E; generalize (parse_uint v); intros n Hn; apply N.le_lt_trans with 2147483647; [exact Hn|reflexivity] end.
+Qed.
+Lemma c01_refuted_F30 : decode_inner' (repaired_d_but30 100) (b [48; 16; 2; 5; 1; 0; 0; 0; 1; 97; 7; 10; 1; 0; 4; 0; 4; 0]) = DFrame 1 (C Application 1 [P Universal 10 [x00]; P Universal 4 []; P Universal 4 []]) [] []
+  /\ decode_inner' (repaired_d 100) (b [48; 16; 2; 5; 1; 0; 0; 0; 1; 97; 7; 10; 1; 0; 4; 0; 4; 0]) = DErr.
+Proof. vm_compute. split; reflexivity. Qed.
 
 (* a proper prefix of an encoding is Incomplete for the repaired parser as well *)
 Theorem proper_prefix_incomplete' fx d t bs p q f : BerEnc t bs -> p ++ q = bs -> q <> [] -> parse_tag' fx d (S f) p = PInc.
